@@ -4,6 +4,7 @@ CONSTANTS
   L = 4
   FixPred = TRUE
   FixLeave = TRUE
+  FixWrap = FALSE
   MaxTry = 2
   MCLayout <- Lay4
   InitMembers = {1, 2, 4}
